@@ -65,6 +65,11 @@ Definition g_rx (c s : R) := one_qubit [L2 0 (bs_mat Rx ii c (- s) k1 k1 k1 k1)]
 Definition g_ry (c s : R) := one_qubit [L2 0 (bs_mat Ry ii c s k1 k1 k1 k1)].
 Definition g_rz (e : R) := one_qubit [L1 0 (kconj e); L1 1 e].
 Definition g_ph (e : R) := one_qubit [L1 1 e].
+(* templates fitted to one-qubit gates that are not catalog gates (abstract_converter.py: _create_generic_1_qubit_gate):
+   a diagonal matrix diag(1, e) uses create_upper_phase_circuit (= the ph circuit), diag(e, 1) uses
+   create_lower_phase_circuit, diag(e1, e2) with both phases non-trivial needs create_2phase_circuit *)
+Definition g_phase_lower (e : R) := one_qubit [L1 0 e].
+Definition g_2phase (e1 e2 : R) := one_qubit [L1 0 e1; L1 1 e2].
 
 (* the matrices the gates are named after *)
 Definition M_h : mat R := mat2 r2 r2 r2 (- r2).
@@ -128,7 +133,7 @@ End Generic.
 
 Arguments bsh {_}. Arguments g_h {_}. Arguments g_s {_}. Arguments g_sdag {_}. Arguments g_t {_}.
 Arguments g_tdag {_}. Arguments g_x {_}. Arguments g_y {_}. Arguments g_z {_}. Arguments g_rx {_}.
-Arguments g_ry {_}. Arguments g_rz {_}. Arguments g_ph {_}. Arguments M_h {_}. Arguments M_x {_}.
+Arguments g_ry {_}. Arguments g_rz {_}. Arguments g_ph {_}. Arguments g_phase_lower {_}. Arguments g_2phase {_}. Arguments M_h {_}. Arguments M_x {_}.
 Arguments M_y {_}. Arguments M_diag {_}. Arguments M_rx {_}. Arguments M_ry {_}. Arguments M_cz {_}.
 Arguments M_cnot {_}. Arguments M_ccz {_}. Arguments M_toffoli {_}. Arguments g_ppcz {_}.
 Arguments g_ppcnot {_}. Arguments g_hcz {_}. Arguments g_hcnot {_}. Arguments g_klm {_}.
